@@ -57,6 +57,10 @@ TARGETS = [
     ("n_drop", "cstree/src/syntax/node.rs", "SyntaxNode", "Drop", "drop"),
     ("n_try_write", "cstree/src/syntax/node.rs", "SyntaxNode", None, "try_write"),
     ("n_read", "cstree/src/syntax/node.rs", "SyntaxNode", None, "read"),
+    ("d_set_data", "cstree/src/syntax/node.rs", "SyntaxNode", None, "set_data"),
+    ("d_try_set_data", "cstree/src/syntax/node.rs", "SyntaxNode", None, "try_set_data"),
+    ("d_get_data", "cstree/src/syntax/node.rs", "SyntaxNode", None, "get_data"),
+    ("d_clear_data", "cstree/src/syntax/node.rs", "SyntaxNode", None, "clear_data"),
     ("i_get_or_intern", "cstree/src/interning/traits.rs", "Interner", "trait", "get_or_intern"),
     ("i_resolve", "cstree/src/interning/traits.rs", "Resolver", "trait", "resolve"),
     ("i_fwd_get_or_intern", "cstree/src/interning/traits.rs", "I", "Interner", "get_or_intern"),
@@ -779,6 +783,9 @@ class Parser:
             return f"(.call {self.name(key)} [{', '.join(a)}])"
         if is_ctor:
             return f"(.ctor {self.name(key)} [])"
+        if len(segs) >= 2:
+            # a function named as a value: `opt.map(Arc::clone)`
+            return f"(.fnv {self.name(key)})"
         raise Unsupported(f"free name {'::'.join(segs)}")
 
     def skip_statement(self):
